@@ -114,7 +114,8 @@ Definition init_st (X : list zcore) (tp : list dat) : stt :=
 Definition run_als (X : list zcore) (reps : nat) (tp : list dat) : stt :=
   iter reps als_sweep (fold_left build_right (rev (seq 0 d)) (init_st X tp)).
 Definition run_mals (X : list zcore) (reps : nat) (tp : list dat) : stt :=
-  iter reps mals_sweep (fold_left build_right (rev (seq 1 (d - 1))) (init_st X tp)).
+  if (d =? 1)%nat then run_als X reps tp        (* sle.mals hands systems of order one to the one-site scheme *)
+  else iter reps mals_sweep (fold_left build_right (rev (seq 1 (d - 1))) (init_st X tp)).
 End Run.
 
 Definition check_C07 (c : dat) : Z :=
